@@ -69,14 +69,19 @@ var extraProps = map[string][]string{
 	// copy-on-write is what makes a reloaded tree independent of its source (C05, "with or without a node cache"),
 	// what keeps "same root name ⇒ same contents" true in memory (C08), what makes a failed operation harmless
 	// before the root swap (C12), and what C01 quantifies over ("cache on/off")
-	"OWN":        {"C01", "C04", "C05", "C08", "C09", "C12", "C13"},
-	"SHAREDPUB":  {"C01", "C04", "C05", "C08", "C09", "C12", "C13"},
-	"FLAGS":      {"C01", "C04", "C05", "C08", "C09", "C12", "C14"}, // a decoded node that forgets its stored name is written again under a new one
-	"ALIAS":      {"C01", "C04", "C05", "C08", "C09", "C12", "C13", "C11"},
+	// and what the diffs compare (C06, C07): two persisted versions read through one node cache are the versions as
+	// persisted only if no tree edits a published node in place (C07-m31: after persist-insert-persist DiffLinks saw
+	// the later contents under the earlier root and a replica holding v1 could not load v2)
+	"OWN":        {"C01", "C04", "C05", "C08", "C09", "C12", "C13", "C06", "C07"},
+	"SHAREDPUB":  {"C01", "C04", "C05", "C08", "C09", "C12", "C13", "C06", "C07"},
+	"FLAGS":      {"C01", "C04", "C05", "C08", "C09", "C12", "C14", "C06", "C07"}, // a decoded node that forgets its stored name is written again under a new one
+	"ALIAS":      {"C01", "C04", "C05", "C08", "C09", "C12", "C13", "C11", "C06", "C07"},
 	"COMMIT":     {"C09"},               // a failed operation that leaves a half-applied change breaks the shape the next persist records
 	"NOEMPTY":    {"C13"},               // an entry-less node that gets linked is written: garbage
 	"CACHEAFTER": {"C11", "C02", "C19"}, // one tree's unfinished write must not make another tree skip its own; a node cached before it is stored is served to LoadMast as if the version existed
-	"ATOMICFILE": {"C18"},               // a successful file Store has written the bytes
+	"ATOMICFILE": {"C18", "C08"},        // a successful file Store has written the bytes — all of them: a short write reported as success leaves a name that is not the digest of the bytes under it (C08-m32)
+	"STOREWRITES":     {"C08"},          // same for the other backends: success means the bytes given are what the name holds
+	"ERRPROP_BACKEND": {"C08", "C17"},   // a write or sync error that is dropped turns a partial node into a "successful" write
 }
 
 // dropProps removes a property from a rule's owners where a violation of the
